@@ -17,7 +17,7 @@ from mc.util import Ctx, affine
 
 PROPERTY = "C19"
 RULE = (
-    "explicit-state BFS over sequences of public entry points sharing one set of caller-owned inputs: 53 operations (k-means "
+    "explicit-state BFS over sequences of public entry points sharing one set of caller-owned inputs: 54 operations (k-means "
     "fit numpy/dask/max_iter=0, transform, predict, cluster variances; GMM ML/MAP fit numpy/dask, acc_stats, transform, "
     "log-likelihood; statistics + and +=; linear_scoring with machines / arrays / offsets; ISV and JFA fit from list / bag / "
     "array / dask array, enroll, enroll_using_array, score (single, list), score_using_array, estimate_x/ux, transform; "
@@ -106,6 +106,13 @@ def _ops():
         np.random.seed(5)
         return IVectorMachine(W.ubm, dim_t=2, max_iterations=2).fit(X)
 
+    def _pool_from_empty(W):
+        pooled = GMMStats(2, 2) + W.stats[0]
+        pooled += W.stats[1]
+        pooled2 = W.stats[2] + GMMStats(2, 2)
+        pooled2 += W.stats[3]
+        return pooled, pooled2
+
     def iadd(W):
         a = copy.deepcopy(W.stats[0])
         a += W.stats[1]
@@ -140,6 +147,7 @@ def _ops():
         "gmm_loglik": lambda W: (W.ubm.log_likelihood(W.X), W.ubm.log_weighted_likelihood(W.X), W.prior.log_likelihood(W.X[0])),
         "stats_add": lambda W: W.stats[0] + W.stats[1] + W.stats[2],
         "stats_iadd": iadd,
+        "stats_add_empty_then_iadd": lambda W: _pool_from_empty(W),
         "linear_arrays": lambda W: linear_scoring(W.models, W.ubm, W.stats, 0, False),
         "linear_offsets_norm": lambda W: linear_scoring(W.models, W.ubm, W.stats, W.offsets, True),
         "linear_machines": lambda W: linear_scoring([W.prior, W.ubm], W.ubm, W.stats[1], 0, True),
